@@ -222,6 +222,13 @@ func c13Eval(t *fw.T, c *fw.Case) {
 		vs = append(vs, variant{"declared-twice", base + fmt.Sprintf("GET %s\n  Path\n    {\n      \"%s\": 5\n    }\n  200 any\n", longer, pr.Key)})
 		break
 	}
+	// the same double declaration when both declarations are pastes of one macro: the two copies have one source position
+	// and must still count as two declarations, exactly as when the Path is written out twice by hand (seeded change C13-Q)
+	const zzPathMacro = "MACRO @zzPathMacro\n(\n  Path\n    {\n      \"zid\": 12\n    }\n)\n"
+	vs = append(vs, variant{"declared-twice-by-one-macro:url-and-longer-method", base + zzPathMacro + "URL /zzm/{zid}\n  PASTE @zzPathMacro\n  GET\n    200 any\nGET /zzm/{zid}/toys\n  PASTE @zzPathMacro\n  200 any\n"})
+	vs = append(vs, variant{"declared-twice-by-one-macro:two-methods", base + "GET /zzn/{zid}\n  PASTE @zzPathMacro\n  200 any\nPOST /zzn/{zid}/more\n  PASTE @zzPathMacro\n  200 any\n" + zzPathMacro})
+	vs = append(vs, variant{"declared-twice-by-one-macro:two-urls", base + zzPathMacro + "URL /zzo/{zid}\n  PASTE @zzPathMacro\n  GET\n    200 any\nURL /zzo/{zid}/more\n  PASTE @zzPathMacro\n  GET\n    200 any\n"})
+	vs = append(vs, variant{"declared-twice-by-nested-macro", base + zzPathMacro + "MACRO @zzOuter\n(\n  PASTE @zzPathMacro\n  200 any\n)\nGET /zzp/{zid}\n  PASTE @zzOuter\nPUT /zzp/{zid}/more\n  PASTE @zzOuter\n"})
 	vs = append(vs, variant{"empty-parameter", base + "GET /zz/{}/x\n  200 any\n"})
 	vs = append(vs, variant{"empty-parameter-first-segment", base + "GET /{}/zzx\n  200 any\n"})
 	vs = append(vs, variant{"empty-parameter-only-segment-url", base + "URL /{}\n  GET\n    200 any\n"})
@@ -278,6 +285,7 @@ func c13Eval(t *fw.T, c *fw.Case) {
 	vs = append(vs, variant{"no-interactions:property-without-segment", noMethods + "URL /zn1/{q}\n  Path\n    {\n      \"q\": 1,\n      \"nosuchsegment\": 2\n    }\n"})
 	vs = append(vs, variant{"no-interactions:path-in-parameterless-url", noMethods + "URL /zn2\n  Path\n    {\n      \"q\": 1\n    }\n"})
 	vs = append(vs, variant{"no-interactions:declared-twice", noMethods + "URL /zn3/{q}\n  Path\n    {\n      \"q\": 1\n    }\nURL /zn3/{q}/more\n  Path\n    {\n      \"q\": @id\n    }\n"})
+	vs = append(vs, variant{"no-interactions:declared-twice-by-one-macro", noMethods + "MACRO @zp\n(\n  Path\n    {\n      \"q\": 1\n    }\n)\nURL /zn6/{q}\n  PASTE @zp\nURL /zn6/{q}/more\n  PASTE @zp\n"})
 	vs = append(vs, variant{"no-interactions:path-body-not-object", noMethods + "URL /zn4/{q}\n  Path\n    [1]\n"})
 	vs = append(vs, variant{"no-interactions:nested-property", noMethods + "URL /zn5/{q}\n  Path\n    {\n      \"q\": {\"a\": 1}\n    }\n"})
 	for _, v := range vs {
